@@ -623,6 +623,8 @@ def run(ctx):
                     history_fail('Rmcp.send_and_receive_raw:bridged-request-depends-on-earlier-requests', 'e2e', calls, extra, msg)
                 D.add(('e2ehist', repr(extra), repr(calls)), True, 'rmcp-end-to-end-history-depth%d' % depth)
 
+    if _load_e2e() is not None:
+        _load_e2e().uninstall()
     failing, errors = C.coq_cases('C09_%d' % os.getpid(), 'Corr.C09', terms)
     res.mismatches = [{'case': meta[i], 'term': terms[i][:600]} for i in failing[:50]]
     res.corr_errors = errors
